@@ -337,7 +337,7 @@ def run(spec, mode='sync', rec=None, chooser=None, keep_session=False, **core_kw
     try:
         args = prepare_ops(spec, dev, tmp)
         kw = dict(core_kw)
-        if 'frag' not in kw and spec.get('frag', 'whole') != 'whole':
+        if 'frag' not in kw and spec.get('frag', 'whole') not in ('whole', 'quiet_trickle'):
             kw['frag'] = frag_fn(spec['frag'], seed)
         if 'tick' not in kw and spec.get('tick'):
             kw['tick'] = spec['tick']          # every transport call takes this much (virtual) time
@@ -353,6 +353,19 @@ def run(spec, mode='sync', rec=None, chooser=None, keep_session=False, **core_kw
             kw['subclass'] = spec['subclass']          # the caller uses a subclass of the device class that overrides a public method
         s = env.Session(mode, dev, **kw)
         s.loop_per_call = bool(spec.get('loop_per_call')) and mode == 'async'
+        if spec.get('frag') == 'quiet_trickle':
+            # a healthy but slow link: every packet is preceded by a quiet spell of 0.8 x the read timeout (the time passes inside the read
+            # of the header, which then arrives whole), and its payload arrives in five pieces that take 0.1 x the read timeout each -
+            # every wait is shorter than the read timeout, the packet as a whole takes longer
+            rt_ = float(spec.get('frag_rt', 1.0))
+
+            def qt(n, avail, _c=s.clock, _core=s.core):
+                if len(_core.cur) == _core.cur_len:          # nothing of this frame consumed yet: the header read
+                    _c.advance(0.8 * rt_)
+                    return min(n, 24)
+                _c.advance(0.1 * rt_)
+                return max(1, -(-(_core.cur_len - 24) // 5))
+            s.core.frag = qt
         dev.clock = s.clock
         rr.sess = s
         if spec.get('mangle'):
